@@ -1,5 +1,7 @@
 import MpireModel.Model.Progress
 import MpireModel.Proofs.Progress
+import MpireModel.Model.BarHandshake
+import MpireModel.Proofs.BarHandshake
 /-!
 # C19 — the progress bar counts every work item once and ends at the total
 
@@ -43,5 +45,72 @@ theorem complete_only_at_total (n : Nat) (tot : Option Nat) (s s' : PSt) (e : PE
 
 example : (prun (pinit 2 (some 3)) [.taskDone 0, .taskDone 1, .poll, .tick, .tick, .taskDone 0, .poll, .force 1, .poll]).map
     (fun s => (s.shown, s.complete, s.done)) = some (3, true, 3) := by decide +kernel
+
+/-! ## The completion handshake between the caller and the handler thread (`Mpire.BarHandshake`)
+
+One pass of the handler's loop (`pass`) interleaved in any order with what the workers and the caller do to the shared
+state: items flushed into the array, the total handed over late (unknown length), shutdown, exception and kill flags. -/
+section Handshake
+open Mpire.BarHandshake
+
+/-- In every history of a call with `t` items (the workers report at most `t`, the caller hands over no total but `t`,
+the bar was created with `t` or with no total): whenever the completion event is set, the displayed count and the
+displayed total both equal `t`; the displayed count never exceeds what the workers reported. -/
+theorem handshake_complete_means_total (t : Nat) (tot : Option Nat) (htot : tot = none ∨ tot = some t) (ops : List Op)
+    (hok : OkHist t (init tot) ops) :
+    let s := run (init tot) ops
+    s.n ≤ s.arr ∧ s.arr ≤ t ∧ (s.complete = true → s.n = t ∧ s.barTotal = some t) := by
+  have h := Mpire.Proofs.BarHandshake.run_inv t ops (init tot) (Mpire.Proofs.BarHandshake.inv_init t tot htot) hok
+  exact ⟨h.1, h.2.1, h.2.2.2.2⟩
+
+/-- The caller leaves `wait_until_progress_bar_is_complete` of a call without exception only with the bar at `t/t`. -/
+theorem caller_goes_on_only_at_total (t : Nat) (tot : Option Nat) (htot : tot = none ∨ tot = some t) (ops : List Op)
+    (hok : OkHist t (init tot) ops) (hgo : callerGoesOn (run (init tot) ops) = true)
+    (hne : (run (init tot) ops).exc = false) :
+    (run (init tot) ops).n = t ∧ (run (init tot) ops).barTotal = some t := by
+  have h := handshake_complete_means_total t tot htot ops hok
+  unfold callerGoesOn at hgo
+  rw [hne, Bool.or_false] at hgo
+  exact h.2.2 hgo
+
+/-- The event is set only by the handler, in a pass that leaves the displayed count equal to the displayed total and
+to the number of items reported at that moment (for any history, no hypothesis on it). -/
+theorem complete_set_only_at_equality (s : HS) (op : Op) (hc : s.complete = false)
+    (hc' : (step s op).complete = true) :
+    op = .pass ∧ (step s op).barTotal = some (step s op).n ∧ (step s op).n = s.arr :=
+  Mpire.Proofs.BarHandshake.complete_step s op hc hc'
+
+/-- The displayed count never decreases and never runs ahead of the array, whatever the history. -/
+theorem handshake_displayed_monotone (ops : List Op) (tot : Option Nat) (op : Op) :
+    (run (init tot) ops).n ≤ (step (run (init tot) ops) op).n ∧
+    (step (run (init tot) ops) op).n ≤ (step (run (init tot) ops) op).arr := by
+  have h := Mpire.Proofs.BarHandshake.n_le_arr_run ops (init tot) (Nat.le_refl _)
+  exact ⟨Mpire.Proofs.BarHandshake.n_mono_step _ op h, Mpire.Proofs.BarHandshake.n_le_arr_step _ op h⟩
+
+/-- No lost wake-up: once every item is in the array and the total is known - already shown by the bar, or handed over
+but not yet picked up, also when it equals what the bar shows already (all items were done before the length of the
+input became known) and also for `T = 0` - the very next pass of the handler sets the completion event, so the caller
+waits for at most one polling interval.  No reachability hypothesis: it holds in every state. -/
+theorem handshake_completes_in_one_pass (s : HS) (T : Nat) (hx : s.exited = false) (he : s.exc = false)
+    (hk : s.kill = false) (hs : s.shutdown = false) (ha : s.arr = T)
+    (ht : (s.updated = true ∧ s.selfTotal = some T) ∨ (s.updated = false ∧ s.barTotal = some T)) :
+    (pass s).complete = true ∧ (pass s).n = T ∧ (pass s).barTotal = some T ∧ (pass s).exited = false :=
+  Mpire.Proofs.BarHandshake.live s T hx he hk hs ha ht
+
+/-- Shutdown, exception and kill end the handler in its next pass, without touching the count or the event. -/
+theorem handler_leaves_on_pill (s : HS) (hx : s.exited = false)
+    (h : s.exc = true ∨ s.kill = true ∨ s.shutdown = true) :
+    (pass s).exited = true ∧ (pass s).n = s.n ∧ (pass s).complete = s.complete :=
+  Mpire.Proofs.BarHandshake.pill_exits s hx h
+
+-- non-vacuity: unknown length, all three items done and shown before the total arrives; then the total, then one pass
+example : let s := run (init none) [.add 2, .pass, .add 1, .pass, .pass, .setTotal 3, .pass]
+    (s.n, s.barTotal, s.complete, callerGoesOn s) = (3, some 3, true, true) := by decide
+example : OkHist 3 (init none) [.add 2, .pass, .add 1, .pass, .pass, .setTotal 3, .pass] := by
+  simp [OkHist, step, init, pass]
+-- empty input: total 0 known up front, first pass completes
+example : (run (init (some 0)) [.pass]).complete = true := by decide
+
+end Handshake
 
 end Mpire.C19
